@@ -277,9 +277,5 @@ def body(check):
         check.guarded("SIBLING-AGREE", key, lambda: sibling(check, key, kernels))
     check.floor("flux kernels", nker, 11)
     # units (dimensional homogeneity of each flux component)
-    try:
-        from ..units import check_flux_units
-    except ImportError:
-        check_flux_units = None
-    if check_flux_units is not None:
-        check_flux_units(check, "UNIT-HOMOG")
+    from ..units import check_flux_units
+    check_flux_units(check, "UNIT-HOMOG")
